@@ -84,7 +84,7 @@ def merge_rules(ctx, F, f, b):
     # ---------------------------------------------------------------- C36-b running_prev
     prev_edges = [c for c in conds.values() if g_prev(c)]
     ctx.floor("C36-b", len(prev_edges), 1, "comparison running_prev == req.prev_log_index")
-    for c in prev_edges[:1]:
+    for c in prev_edges:
         sa, sb = sl(c.a), sl(c.b)
         run_s = sa if ("binop", "AddWithOverflow") in sa.sources or ("binop", "Add") in sa.sources else sb
         lens = [(x, t) for (x, t) in run_s.call_sites if re.search(r"Vec::len$", strip_generics(callee_key(t)))]
